@@ -33,9 +33,11 @@ RULE = ("Cases: (generation mode default(-1)/positive, first round = C14 bounded
         "every first-round input of 1..4 members x 1..3 topics x {no metadata, 0..4 partitions} x every non-empty "
         "subscription per member (quick: 1..3 members, 0..3 partitions), each followed by exactly one second round "
         "out of: same; minus every non-empty proper subset of members; plus new members {m9}, {a0}, {a0,m9} "
-        "(sorting after/before the old ones) subscribing like m0 or to all topics; each in both generation modes. "
+        "(sorting after/before the old ones) subscribing like m0 or to all topics; generation mode default for all of "
+        "these, positive for first rounds of up to 3 members (quick: up to 2). "
         "Enumerated deeper chains with identical subscriptions: t0 with 1..9 (thorough 1..12) partitions, optional "
-        "second topic subscribed by all (0..3 partitions) or by nobody (1..2), 1..3 initial members, every sequence "
+        "second topic subscribed by all (0..3 partitions; also with every other member listing the two topics in the "
+        "opposite order) or by nobody (1..2), 1..3 initial members, every sequence "
         "of 2..3 (thorough 2..4) steps over {same, add member sorting first/last, remove first/last member}. "
         "Random: chains of 1..4 steps after a first round of up to 8 members, 6 topics, 12 partitions. "
         "Non-trivial = some remove/add step whose previous round gave every member at least one partition. "
@@ -142,7 +144,13 @@ def run_chain(gen, layout, members, steps, memo_key=None):
         # a topic with partitions that nobody subscribes to (e.g. full-cluster metadata of a pattern
         # subscriber): part of the cluster layout, never part of anyone's subscription
         unsub = _unsubscribed_topic(layout, members)
-        params = {"gen": gen, "round_kind": kind, "cluster_topic_nobody_subscribes": unsub}
+        # same topic *set* for everybody but not the same list order on the wire (subscriptions are
+        # list(set) in every member's own process, so orders do differ in practice)
+        order = ident_both and len({tuple(ts) for _, ts in prev_members + members}) > 1
+        params = {"gen": gen, "round_kind": kind, "cluster_topic_nobody_subscribes": unsub,
+                  "same_topics_different_order": order}
+        if order:
+            out.label("round:same_topics_different_order")
         out.label("round:" + kind)
         if unsub:
             out.label("round:cluster_topic_nobody_subscribes")
@@ -201,13 +209,15 @@ def _seconds(topics, subs):
             yield ["add", names, s]
 
 
-def _pair_cases(shard, nshards, max_members, part_choices):
+def _pair_cases(shard, nshards, max_members, part_choices, positive_max_members):
     i = 0
     for topics, subs in ac.bounded_inputs(max_members, part_choices=part_choices):
         i += 1
         if i % nshards != shard:
             continue
         for gen in ac.GEN_MODES:
+            if gen == "positive" and len(subs) > positive_max_members:
+                continue
             for second in _seconds(topics, subs):
                 yield {"topics": list(topics), "subs": [list(s) for s in subs], "gen": gen, "second": second}
 
@@ -302,25 +312,29 @@ def _identical_chain_cases(shard, nshards, max_parts, max_len):
                 layout["t1"] = sec[1]
                 if sec[0] == "sub":
                     sub = ["t0", "t1"]
-            for nm in (1, 2, 3):
-                members = [["m%d" % j, list(sub)] for j in range(nm)]
-                for ln in range(2, max_len + 1):
-                    for steps in itertools.product(_ID_STEPS, repeat=ln):
-                        for gen in ac.GEN_MODES:
-                            i += 1
-                            if i % nshards == shard:
-                                yield {"gen": gen, "first": {"topics": layout, "members": members},
-                                       "steps": [list(x) for x in steps]}
+            for alt in ((False, True) if len(sub) > 1 else (False,)):
+                # alt: odd-numbered and joining members list the same topics in the opposite order
+                rsub = list(reversed(sub)) if alt else list(sub)
+                id_steps = [st if st[0] != "add" else ["add", [[st[1][0][0], rsub]]] for st in _ID_STEPS]
+                for nm in (1, 2, 3):
+                    members = [["m%d" % j, rsub if j % 2 else list(sub)] for j in range(nm)]
+                    for ln in range(2, max_len + 1):
+                        for steps in itertools.product(id_steps, repeat=ln):
+                            for gen in ac.GEN_MODES:
+                                i += 1
+                                if i % nshards == shard:
+                                    yield {"gen": gen, "first": {"topics": layout, "members": members},
+                                           "steps": [list(x) for x in steps]}
 
 
 def campaigns(tier):
     thorough = tier == "thorough"
     if thorough:
         pairs = Campaign("pairs", "enum", execute=exec_pair, exhaustive=True,
-                         cases=lambda s, n: _pair_cases(s, n, 4, ac.PART_CHOICES))
+                         cases=lambda s, n: _pair_cases(s, n, 4, ac.PART_CHOICES, 3))
     else:
         pairs = Campaign("pairs", "enum", execute=exec_pair, exhaustive=True,
-                         cases=lambda s, n: _pair_cases(s, n, 3, (None, 0, 1, 2, 3)))
+                         cases=lambda s, n: _pair_cases(s, n, 3, (None, 0, 1, 2, 3), 2))
     return [
         pairs,
         Campaign("identical_chains", "enum", execute=exec_chain, exhaustive=True,
